@@ -1,17 +1,20 @@
 import GroupbyVerif.Props.C04
 import GroupbyVerif.Props.C02
 import GroupbyVerif.Model.GroupBy
+import GroupbyVerif.Lemmas.Pipeline
 
 /-!
 # C01 — Group reductions equal the per-group definition (public API)
 
 The kernel-level statement (single pass / block-wise = per-group definition, for every
 interleaving, null placement, kernel and dtype class) is C04.  This file adds what the public
-pipeline needs on top: the neutral result of an all-null group, and the label set.
+pipeline needs on top: the neutral result of an all-null group, the label set, and
+`modelReduce_eq_specReduce`: the whole pipeline (factorization, kernel under any mask / thread count,
+observed-label filter, label ordering) returns exactly the specification `specReduce`.
 -/
 
 namespace GV.C01
-open GV
+open GV GV.C04 GV.Pipe
 
 /-- a group whose values are all null reports the neutral result: 0 for sum / count /
 sum of squares, the kind's null otherwise — and its row count is still reported by `size`/`last` -/
@@ -66,5 +69,150 @@ theorem spec_labels_exactly_selected (kn : Kernel) (k : Kind) (keys : List (Opti
     refine ⟨⟨some l, ?_, rfl⟩, ⟨(some l, v), hv, rfl⟩⟩
     have := hsub _ hv
     exact (List.of_mem_zip this).1
+
+/-- **the public reduction pipeline returns the specification**: factorization, the kernel under any mask /
+thread count, the observed-label filter and the label ordering together give exactly the labels that have a
+selected row (ascending or in first-appearance order), each with the per-group definition over its selected rows -/
+theorem modelReduce_eq_specReduce (kn : Kernel) (k : Kind) (hk : k.Supported) (keys : List (Option Key)) (vals : List Val)
+    (mask : Mask) (sort : Bool) (threads : Nat) (hlen : keys.length = vals.length) (hwf : ∀ v ∈ vals, WF k v)
+    (hm : ∀ m, mask = .bool m → m.length = keys.length) (res : List (Key × Partial))
+    (h : modelReduce modelReducers kn k keys vals mask sort threads = some res) :
+    specReduce kn k keys vals mask sort = some res := by
+  unfold modelReduce at h
+  simp only [factorizeFirst] at h
+  generalize hlab : dedup (keys.filterMap id) = labels at h
+  have hnd : labels.Nodup := by rw [← hlab]; exact nodup_dedup _
+  have hkeylab : ∀ ky ∈ keys, ∀ x, ky = some x → x ∈ labels := by
+    intro ky hky x hx
+    rw [← hlab, mem_dedup, List.mem_filterMap]
+    exact ⟨ky, hky, by simp [hx]⟩
+  rw [zip_codes_vals, zip_codes_codes labels keys vals hlen] at h
+  have hzlen : (keys.zip vals).length = keys.length := by simp [hlen]
+  split at h
+  · rename_i p cnt hp hcnt
+    simp only [Option.some.injEq] at h
+    -- the selection on the original rows
+    have hm1 : ∀ m, mask = .bool m → m.length = ((keys.zip vals).map (fun r => (codeOf labels r.1, r.2))).length := by
+      intro m hmm; rw [List.length_map, hzlen]; exact hm m hmm
+    have hm2 : ∀ m, mask = .bool m → m.length = ((keys.zip vals).map (fun r => (codeOf labels r.1, Val.num (codeOf labels r.1)))).length := by
+      intro m hmm; rw [List.length_map, hzlen]; exact hm m hmm
+    have hwf1 : ∀ r ∈ (keys.zip vals).map (fun r => (codeOf labels r.1, r.2)), WF k r.2 := by
+      intro r hr
+      obtain ⟨r0, hr0, rfl⟩ := List.mem_map.mp hr
+      exact hwf _ (List.of_mem_zip hr0).2
+    obtain ⟨sel2, hsel2, hcnt2⟩ := size_kernel_count _ mask cnt hm2 hcnt
+    cases hsel : selectGen (keys.zip vals) mask with
+    | none =>
+      unfold selectRows at hsel2
+      rw [selectGen_map, hsel] at hsel2
+      cases hsel2
+    | some sel =>
+      have hsub : ∀ r ∈ sel, r ∈ keys.zip vals := selectGen_mem _ mask sel hsel
+      have hrkey : ∀ r ∈ sel, ∀ x, r.1 = some x → x ∈ labels := fun r hr x hx =>
+        hkeylab r.1 (List.of_mem_zip (hsub r hr)).1 x hx
+      -- F2: counts
+      have hsel2' : sel2 = sel.map (fun r => (codeOf labels r.1, Val.num (codeOf labels r.1))) := by
+        unfold selectRows at hsel2
+        rw [selectGen_map, hsel] at hsel2
+        simpa using hsel2.symm
+      have hfilt : ∀ (g : Nat) (hg : g < labels.length),
+          sel.filter (fun r => decide (codeOf labels r.1 = Int.ofNat g)) = sel.filter (fun r => decide (r.1 = some labels[g])) := by
+        intro g hg
+        apply List.filter_congr
+        intro r hr
+        have := codeOf_eq_ofNat_iff labels hnd r.1 (hrkey r hr) g hg
+        simp only [decide_eq_decide]
+        exact this
+      have F2 : ∀ (g : Nat) (hg : g < labels.length),
+          (cnt (Int.ofNat g)).2 = ((sel.filter (fun r => decide (r.1 = some labels[g]))).length : Int) := by
+        intro g hg
+        rw [hcnt2 (Int.ofNat g) (by simp), hsel2', ← hfilt g hg]
+        simp [valsOf, List.filter_map, Function.comp_def]
+      -- F1: values
+      have F1 : ∀ (g : Nat) (hg : g < labels.length),
+          p (Int.ofNat g) = specKernel kn k ((sel.filter (fun r => decide (r.1 = some labels[g]))).map (·.2)) := by
+        intro g hg
+        obtain ⟨sel1, hsel1, hp1⟩ := groupKernel_eq_def kn k hk _ mask threads none p hwf1 hm1 hp (Int.ofNat g) (by simp)
+        unfold selectRows at hsel1
+        rw [selectGen_map, hsel] at hsel1
+        have : sel1 = sel.map (fun r => (codeOf labels r.1, r.2)) := by simpa using hsel1.symm
+        rw [hp1, this, ← hfilt g hg]
+        simp [valsOf, List.filter_map, Function.comp_def]
+      -- F3: the observed filter
+      have F3 : ∀ (g : Nat) (hg : g < labels.length),
+          (decide ((p (Int.ofNat g)).2 > 0) || decide ((cnt (Int.ofNat g)).2 > 0)) = decide (labels[g] ∈ sel.filterMap (·.1)) := by
+        intro g hg
+        have hiff : (sel.filter (fun r => decide (r.1 = some labels[g]))) ≠ [] ↔ labels[g] ∈ sel.filterMap (·.1) := by
+          rw [List.mem_filterMap]
+          constructor
+          · intro hne
+            obtain ⟨r, hr⟩ := List.exists_mem_of_ne_nil _ hne
+            have := List.mem_filter.mp hr
+            exact ⟨r, this.1, by simpa using this.2⟩
+          · rintro ⟨r, hr, hr1⟩ hc
+            have : r ∈ sel.filter (fun r => decide (r.1 = some labels[g])) := List.mem_filter.mpr ⟨hr, by simpa using hr1⟩
+            rw [hc] at this; cases this
+        by_cases hmem : labels[g] ∈ sel.filterMap (·.1)
+        · have hne := hiff.mpr hmem
+          have : (cnt (Int.ofNat g)).2 > 0 := by
+            rw [F2 g hg]
+            have := List.length_pos_iff.mpr hne
+            omega
+          simp [hmem]
+          exact Or.inr this
+        · have hnil : sel.filter (fun r => decide (r.1 = some labels[g])) = [] := by
+            by_cases hc : sel.filter (fun r => decide (r.1 = some labels[g])) = []
+            · exact hc
+            · exact absurd (hiff.mp hc) hmem
+          have h1 : ¬ (p (Int.ofNat g)).2 > 0 := by
+            intro hpos
+            rw [F1 g hg] at hpos
+            have := specKernel_count_pos kn k _ hpos
+            rw [hnil] at this
+            exact this rfl
+          have h2 : ¬ (cnt (Int.ofNat g)).2 > 0 := by
+            rw [F2 g hg, hnil]; simp
+          simp [hmem]
+          exact ⟨Int.not_lt.mp h1, Int.not_lt.mp h2⟩
+      -- assemble
+      have hobs : (List.range labels.length).filter (fun g => decide ((p (Int.ofNat g)).2 > 0) || decide ((cnt (Int.ofNat g)).2 > 0))
+          = (List.range labels.length).filter (fun g => decide (labels.getD g [] ∈ sel.filterMap (·.1))) := by
+        apply List.filter_congr
+        intro g hg
+        have hg' : g < labels.length := List.mem_range.mp hg
+        rw [F3 g hg', getD_lt labels g hg']
+      rw [hobs] at h
+      have hlabels' : labels.filter (fun l => decide (l ∈ sel.filterMap (·.1)))
+          = ((List.range labels.length).filter (fun g => decide (labels.getD g [] ∈ sel.filterMap (·.1)))).map (fun g => labels.getD g []) := by
+        conv => lhs; rw [← range_map_getD labels]
+        rw [List.filter_map]
+        rfl
+      have hG : ∀ g ∈ (List.range labels.length).filter (fun g => decide (labels.getD g [] ∈ sel.filterMap (·.1))),
+          (labels.getD g [], p (Int.ofNat g)) =
+            (fun l => (l, specKernel kn k ((sel.filter (fun r => r.1 = some l)).map (·.2)))) (labels.getD g []) := by
+        intro g hg
+        have hg' : g < labels.length := List.mem_range.mp (List.mem_filter.mp hg).1
+        rw [getD_lt labels g hg', F1 g hg']
+      unfold specReduce
+      simp only [hsel, hlab]
+      congr 1
+      rw [← h]
+      cases sort
+      · simp only [Bool.false_eq_true, if_false]
+        rw [hlabels', List.map_map]
+        apply List.map_congr_left
+        intro g hg
+        exact (hG g hg).symm
+      · simp only [if_true]
+        rw [hlabels']
+        unfold sortLabels
+        rw [← List.map_mergeSort (r := fun a b => keyLe (labels.getD a []) (labels.getD b [])) (s := keyLe)
+          (f := fun g => labels.getD g []) (by intro a _ b _; rfl)]
+        rw [List.map_map]
+        apply List.map_congr_left
+        intro g hg
+        exact (hG g ((List.mergeSort_perm _ _).mem_iff.mp hg)).symm
+  · cases h
+
 
 end GV.C01
